@@ -20,7 +20,8 @@ Four complete enumerations (all sharded by case index):
               style, all deviations from it in one slot (thorough: also every pair of string
               slots) and 84 global styles (integer style x string style per nesting level).
               Every AST of depth <= 2 also under the other 8 base/case configurations.
- (iii) HIST   breadth-first explicit-state search over 14 state-changing macros to depth 4
+ (iii) HIST   breadth-first explicit-state search over 16 state-changing macros (#POKES also at the boundary
+              addresses 0, 1, 16383, 16384, 65534, 65535) to depth 4
               (thorough 5).  A state is the history reaching it: fresh real writers + replay.
               Canonical state = (variables, poked cells, snapshot stack contents, defined
               macros) of the *reference* state; successors are deduplicated by its hash for
@@ -410,6 +411,8 @@ def composites():
         S(('PUSHS', 'nm'), ' ', ('POKES', ((n(40011), n(9)), (n(40012), n(8), n(2), n(2)))), ('POKES', ((n(40030), n(0), n(3)),)),
           ('FOREACHP', 'nm', 'p', S(LV('p')), lit('; '), None), '/', ('FOR', n(40011), n(40014), None, None, 'n', S(('PEEK', LV())), lit(','), None), ('POPS',),
           '/', ('FOR', n(40011), n(40014), None, None, 'n', S(('PEEK', LV())), lit(','), None)),
+        S(('PUSHS', ''), ' ', ('POKES', ((n(65535), n(9)), (n(0), n(8)), (n(16383), n(7), n(2)))), ('PEEK', n(65535)), ',', ('PEEK', n(0)), ',', ('PEEK', n(16384)), '/',
+          ('POPS',), ('PEEK', n(65535)), ',', ('PEEK', n(0)), ',', ('PEEK', n(16383)), ',', ('PEEK', n(16384))),
         S(('PUSHS', ''), ' ', ('POKES', ((n(40011), n(1)),)), ('PUSHS', 'x2'), ' ', ('POKES', ((n(40011), n(2)),)), ('PEEK', n(40011)), ('POPS',), ('PEEK', n(40011)),
           ('POPS',), ('PEEK', n(40011))),
         S(('DEF', None, 'Z', (('p', None), ('q', 3)), None, S('[', ('arg', 'p', 0), '.', ('arg', 'q', 1), ']')), ('CALL', 'Z', ((None, n(1)),), None),
@@ -658,7 +661,10 @@ def check_text(w, ast, text, stats):
 
 # ------------------------------------------------------------------------------ (iii) histories
 A1, A2, A3, A4 = 40010, 40011, 40012, 40013
-CELLS = (A1, A2, A3, A4)
+# the ends of the address space and of the ROM / RAM boundary: a snapshot copy that stops one
+# short (or starts one late) shows only there
+BOUNDARY = (0, 1, 16383, 16384, 65534, 65535)
+CELLS = (A1, A2, A3, A4) + BOUNDARY + (65533,)
 OPS = (
     ('LET', 'a', num(1)),
     ('LET', 'a', B('+', F('a'), num(1))),
@@ -668,6 +674,10 @@ OPS = (
     ('LETK', 'd', num(2), B('+', F('a'), num(6))),
     ('POKES', ((num(A1), num(65)),)),
     ('POKES', ((num(A1), num(66), num(2), num(2)),)),
+    # single pokes at every boundary address
+    ('POKES', tuple((num(a), num(67 + i)) for i, a in enumerate(BOUNDARY))),
+    # a run that ends at 65535 (step 2) and a run that starts at 0
+    ('POKES', ((num(65533), num(80), num(2), num(2)), (num(0), num(81), num(2), num(1)))),
     ('PUSHS', ''),
     ('PUSHS', 'nm'),
     ('POPS',),
@@ -675,7 +685,7 @@ OPS = (
     ('DEF', None, 'M', (('n', None), ('k', 1)), None, S('|', ('arg', 'n', 0), '+', ('arg', 'k', 1), '|')),
     ('MAP', num(1), lit('z'), ((num(1), lit('p')), (num(2), lit('q')))),
 )
-OP_NAMES = ('LET a=1', 'LET a={a}+1', 'LET b={a}*2', 'LET s$=x', 'LET d[]=(0,1:2)', 'LET d[2]={a}+6', 'POKES A,65', 'POKES A,66,2,2', 'PUSHS', 'PUSHS nm',
+OP_NAMES = ('LET a=1', 'LET a={a}+1', 'LET b={a}*2', 'LET s$=x', 'LET d[]=(0,1:2)', 'LET d[2]={a}+6', 'POKES A,65', 'POKES A,66,2,2', 'POKES 0;1;16383;16384;65534;65535', 'POKES 65533,80,2,2;0,81,2,1', 'PUSHS', 'PUSHS nm',
             'POPS', 'DEF M', 'DEF M (redefinition)', 'MAP (cached map)')
 # a separator after each operation so that #PUSHS / bare integers end cleanly
 OP_TEXT_FOLLOW = ('',)
@@ -1089,9 +1099,9 @@ def run(tier, seed):
     meta = dict(
         rule='(i) all expressions of depth <= 2 over 19 operators x 10 operands (both tree shapes), via #EVAL(..) (exact value; fully and minimally parenthesised{}) '
              'and #IF(..)(T,F) (truth value); (ii) macro ASTs to nesting depth 3{} built from 125 leaf macros, 15 integer contexts, 13 string contexts, 10 #(..) contexts, '
-             '#FOR/#FOREACH bodies over the loop variable and 18 self-contained state-changing composites; styles: complete product over all slots to depth 2 '
+             '#FOR/#FOREACH bodies over the loop variable and 19 self-contained state-changing composites; styles: complete product over all slots to depth 2 '
              '(cap {} per AST), beyond that the simplest legal global style, every deviation from it in one slot{}, and the 84 global styles (6 integer styles x 14 '
-             'per-nesting-level string styles); every AST of depth <= 2 also under the other 8 base/case configurations; (iii) BFS over 14 state-changing macros to '
+             'per-nesting-level string styles); every AST of depth <= 2 also under the other 8 base/case configurations; (iii) BFS over 16 state-changing macros (incl. #POKES at 0, 1, 16383, 16384, 65534, 65535 and runs ending at 65535 / starting at 0) to '
              'depth {}: states = distinct canonical reference states (variables, poked cells, snapshot stack, defined macros); every transition target (merged or not) '
              'replayed on fresh AsmWriter+HtmlWriter and probed with 32 macros + snapshot-stack drain{}; (iv) every distinct state to depth {} through skool2asm/skool2html '
              'with every pure probe in 8 comment positions + a ref-file page. evaluations = macro texts (tool: comment positions) compared with the reference; '
